@@ -189,6 +189,19 @@ namespace rkverif {
       }
     }
 
+    inline void reapSnapshot()  // R-C02-6 (v): a copy of the shared list is swept -- concurrent callers delete the same task
+    {
+      std::vector<Task *> snapshot;
+      {
+        std::lock_guard<std::mutex> lock(g_listMutex);
+        snapshot = g_list;
+      }
+      for (Task *t : snapshot) {
+        if (t->GetIsComplete())
+          delete t;
+      }
+    }
+
     inline void reapAfterUnlock()
     {
       std::unique_lock<std::mutex> lock(g_listMutex);
